@@ -21,7 +21,7 @@ pub proof fn ids_lawful()
 #[derive(Clone, Copy, Debug)] pub struct LocalTime { pub ms: u64 }
 #[derive(Clone, Copy, Debug)] pub struct Timestamp(pub u64);
 impl From<LocalTime> for Timestamp { #[verifier::external_body] fn from(t: LocalTime) -> Self { unimplemented!() } }
-#[derive(Debug)] pub struct RefsAt;
+#[derive(Debug, Clone)] pub struct RefsAt;
 #[derive(Debug, Clone)] pub struct RefUpdate;
 impl RefUpdate { #[verifier::external_body] pub fn is_skipped(&self) -> bool { unimplemented!() } }
 pub struct Doc;
@@ -51,10 +51,35 @@ pub enum Event { RefsFetched { remote: NodeId, rid: RepoId, updated: Vec<RefUpda
 pub struct Emitter<T>(pub T);
 impl<T> Emitter<T> { #[verifier::external_body] pub fn emit(&self, e: T) { unimplemented!() } }
 pub enum DisconnectReason { Fetch(FetchError) }
+pub mod time { #[derive(Clone, Copy)] pub struct Duration; }
+#[derive(Clone, Copy)] pub struct FetchPackSizeLimit;
 pub struct Outbox;
-impl Outbox { #[verifier::external_body] pub fn disconnect(&mut self, remote: NodeId, reason: DisconnectReason) { unimplemented!() } }
+impl Outbox {
+    #[verifier::external_body] pub fn disconnect(&mut self, remote: NodeId, reason: DisconnectReason) { unimplemented!() }
+    /// SINK (C13, C16): hands the fetch to the worker and calls Session::fetching(rid), which (unit `session`) panics unless the
+    /// session is connected and not already fetching `rid`, and must stay within the per-peer concurrency limit.
+    #[verifier::external_body]
+    pub fn fetch(&mut self, peer: &mut Session, rid: RepoId, refs_at: Vec<RefsAt>, timeout: time::Duration, reader_limit: FetchPackSizeLimit)
+        requires
+            old(peer).connected(),                  //[C13]
+            !old(peer).fetching_rid(rid),           //[C13,C16]
+            !old(peer).at_capacity(),               //[C16]
+    { unimplemented!() }
+}
 pub struct Session { pub id: NodeId }
 impl Session {
+    pub uninterp spec fn connected(self) -> bool;
+    pub uninterp spec fn at_capacity(self) -> bool;
+    pub uninterp spec fn fetching_rid(self, rid: RepoId) -> bool;
+    /// Session::{is_connected, is_at_capacity, is_fetching}: verified in unit `session`
+    #[verifier::external_body] pub fn is_connected(&self) -> (r: bool) ensures r == self.connected() { unimplemented!() }
+    /// the other state predicates of Session (state is Disconnected / Initial / Attempted): exclusive with `connected`
+    pub uninterp spec fn disconnected(self) -> bool;
+    #[verifier::external_body] pub fn is_disconnected(&self) -> (r: bool) ensures r == self.disconnected(), r ==> !self.connected() { unimplemented!() }
+    #[verifier::external_body] pub fn is_initial(&self) -> (r: bool) ensures r ==> !self.connected() { unimplemented!() }
+    #[verifier::external_body] pub fn is_connecting(&self) -> (r: bool) ensures r ==> !self.connected() { unimplemented!() }
+    #[verifier::external_body] pub fn is_at_capacity(&self) -> (r: bool) ensures r == self.at_capacity() { unimplemented!() }
+    #[verifier::external_body] pub fn is_fetching(&self, rid: &RepoId) -> (r: bool) ensures r == self.fetching_rid(*rid) { unimplemented!() }
     /// per-session bookkeeping, verified in unit `session`
     #[verifier::external_body] pub fn fetched(&mut self, rid: RepoId) { unimplemented!() }
     #[verifier::external_body] pub fn queue_fetch(&mut self, f: QueuedFetch) -> (r: Result<(), QueueError>) requires f.from == old(self).id { unimplemented!() }
@@ -64,17 +89,51 @@ pub struct QueueError;
 impl QueueError { #[verifier::external_body] pub fn inner(&self) -> &QueuedFetch { unimplemented!() } }
 pub struct Sessions;
 impl Sessions {
+    /// ghost: the session of `nid` (if any) records `rid` as being fetched
+    pub uninterp spec fn fetching_from(self, nid: NodeId, rid: RepoId) -> bool;
     /// ASSUMED: sessions are keyed by node id
     #[verifier::external_body]
-    pub fn get_mut(&mut self, id: &NodeId) -> (r: Option<&mut Session>) ensures r is Some ==> r->Some_0.id == *id { unimplemented!() }
+    pub fn get_mut(&mut self, id: &NodeId) -> (r: Option<&mut Session>)
+        ensures r is Some ==> r->Some_0.id == *id && (forall|rid: RepoId| #[trigger] r->Some_0.fetching_rid(rid) == old(self).fetching_from(*id, rid))
+    { unimplemented!() }
 }
-pub struct Config; pub struct Device<G>(pub G); pub struct Stores<D>(pub D);
+// ---- std::collections::hash_map::Entry API, by contract (the std types hold a `&mut` into the map) --------------------
+pub struct VxVacant<'a> { pub map: &'a mut HashMap<RepoId, FetchState>, pub key: RepoId }
+pub struct VxOccupied<'a> { pub map: &'a mut HashMap<RepoId, FetchState>, pub key: RepoId }
+pub enum Entry<'a> { Vacant(VxVacant<'a>), Occupied(VxOccupied<'a>) }
+/// ASSUMED (HashMap::entry): Occupied exactly when the key is present; the entry is a reborrow of the map
+#[verifier::external_body]
+pub fn vx_entry<'a>(m: &'a mut HashMap<RepoId, FetchState>, key: RepoId) -> (r: Entry<'a>)
+    ensures (r is Occupied) == old(m)@.contains_key(key),
+        r matches Entry::Vacant(v) ==> v.key == key && *v.map == *old(m) && *final(v.map) == *final(m),
+        r matches Entry::Occupied(o) ==> o.key == key && *o.map == *old(m) && *final(o.map) == *final(m),
+{ unimplemented!() }
+impl<'a> VxVacant<'a> {
+    /// ASSUMED (VacantEntry::insert): adds the entry and returns a reference to the value in the map
+    #[verifier::external_body]
+    pub fn insert(self, v: FetchState) -> (r: &'a mut FetchState)
+        ensures *r == v, final(self.map)@ == old(self.map)@.insert(self.key, *final(r))
+    { unimplemented!() }
+}
+impl<'a> VxOccupied<'a> {
+    /// ASSUMED (OccupiedEntry::into_mut): a reference to the value in the map; nothing else changes
+    #[verifier::external_body]
+    pub fn into_mut(self) -> (r: &'a mut FetchState)
+        ensures old(self.map)@.contains_key(self.key), *r == old(self.map)@[self.key], final(self.map)@ == old(self.map)@.insert(self.key, *final(r))
+    { unimplemented!() }
+}
+pub struct NamespacesError;
+pub struct Limits { pub fetch_pack_receive: FetchPackSizeLimit }
+pub struct Config { pub limits: Limits }
+pub struct Device<G>(pub G); pub struct Stores<D>(pub D);
 pub trait Store {} pub trait ReadStorage {}
 pub mod crypto { pub struct Signature; pub mod signature { pub trait Signer<T> {} } }
 #[derive(Debug)] pub struct Error;
 
 //@extract crates/radicle-node/src/service.rs
 //@  item struct FetchState
+//@    derive
+//@  item enum TryFetchError
 //@    derive
 //@  item struct Service
 //@    fields config, signer, storage, db, sessions, clock, outbox, fetching, emitter
@@ -85,6 +144,24 @@ pub mod crypto { pub struct Signature; pub mod signature { pub trait Signer<T> {
 //@      #[verifier::external_body] fn add_inventory(&mut self, rid: RepoId) -> Result<bool, Error> { unimplemented!() }
 //@      #[verifier::external_body] fn announce_refs(&mut self, rid: RepoId, doc: Doc, namespaces: HashSet<NodeId>) -> Result<(), Error> { unimplemented!() }
 //@      #[verifier::external_body] pub fn dequeue_fetches(&mut self) { unimplemented!() }
+//@      /// representation invariant linking the two fetch tables (from the statement of C16: one fetch per repository,
+//@      /// attributed to one peer): a session records `rid` as being fetched only if the service's table maps `rid` to that peer
+//@      pub open spec fn wf(self) -> bool {
+//@          forall|nid: NodeId, rid: RepoId| #[trigger] self.sessions.fetching_from(nid, rid) ==> self.fetching@.contains_key(rid) && self.fetching@[rid].from == nid
+//@      }
+//@    fn try_fetch
+//@      ret r
+//@      # the Entry API of std (types holding a `&mut` into the map) is represented by stand-ins with the same shape
+//@      body_sub self\.fetching\.entry\(rid\) => vx_entry(&mut self.fetching, rid)
+//@      requires
+//@        old(self).wf()
+//@      ensures
+//@        # C16: a fetch of `rid` is started only if none is in progress, and is attributed to `from`
+//@        r is Ok ==> !old(self).fetching@.contains_key(rid) && final(self).fetching@ == old(self).fetching@.insert(rid, *final(r->Ok_0)) && r->Ok_0.from == *from //[C16]
+//@        r matches Err(TryFetchError::SessionNotConnected) ==> final(self).fetching@ == old(self).fetching@ //[C16]
+//@        r matches Err(TryFetchError::SessionCapacityReached) ==> final(self).fetching@ == old(self).fetching@ //[C16]
+//@      head
+//@        proof { ids_lawful(); }
 //@    fn queue_fetch
 //@    fn fetched
 //@      attr #[verifier::exec_allows_no_decreases_clause]
